@@ -286,6 +286,13 @@ def run_case(rng, idx, tier):
         model = new
         applied.append(name)
         if not last:
+            # The request under judgement is the last one.  It is judged on a state the earlier requests established:
+            # when an earlier request did not establish what it asked for (that sequence is a case of its own, and
+            # is reported there) the state is the product of a defect and nothing is concluded from it here.
+            if not _established(cat, val, det_before, detect(model), shape(model, rng)):
+                c.hit("prefix_not_established")
+                c.skipped = "prefix-request-not-established"
+                return c
             continue
         # ---------------- D: detectors
         det = detect(model)
@@ -363,6 +370,31 @@ def run_case(rng, idx, tier):
                         c.violate(_key_rev(name, applied), f"{name} then {undo_name} after {applied[:-1]} on {start} is not equivalent to before: {mm.what}")
         c.nontrivial = True
     return c
+
+
+def _established(cat, val, det_before, det, sh):
+    want = val
+    if val == "+1":
+        want = det_before["peripherals"] + 1 if isinstance(det_before["peripherals"], int) else None
+    if want is None:
+        return True
+    got = det[cat]
+    ok = (got == (want,)) if cat in ("absorption", "elimination") else (got == want)
+    if not ok:
+        return False
+    if sh is not None and cat in sh and sh[cat] != "?" and sh[cat] != want and not (cat == "elimination" and want == "ZO" and sh[cat] in ("MM", "ZO")):
+        return False
+    # a state on which pharmpy's detectors and the independent reading of the compartment graph disagree in any
+    # category is not an established state either (same reporting rule: the sequence up to here is its own case)
+    if sh is not None:
+        for other in CATS:
+            if other == cat or other not in sh or sh[other] == "?":
+                continue
+            d = det[other]
+            d = d[0] if isinstance(d, tuple) and len(d) == 1 else d
+            if d != sh[other] and not (other == "elimination" and sh[other] in ("MM", "ZO") and d in ("MM", "ZO")):
+                return False
+    return True
 
 
 def _request_for(cat, value):
